@@ -2278,6 +2278,14 @@ pub fn check_c16(ix: &Ix<'_>, v: &mut Vec<Violation>) {
 }
 
 pub fn check_all(out: &RunOut) -> Vec<Violation> {
+    if matches!(out.plan.family, "C02" | "C10") {
+        let mut v = out.pre_violations.clone();
+        if let Some(p) = &out.panic {
+            let loc = p.rsplit(" @ ").next().unwrap_or("").to_string();
+            v.push(Violation { prop: "C02", key: format!("C02/panic/codec/{loc}"), msg: format!("panic: {p}"), at_seq: 0 });
+        }
+        return v;
+    }
     let ix = Ix::new(out);
     let mut v = Vec::new();
     monitors(&ix, &mut v);
@@ -2308,6 +2316,10 @@ pub fn check_all(out: &RunOut) -> Vec<Violation> {
         }
         "C17" => {
             check_c17(&ix, &mut v);
+        }
+        "C10C" => {
+            check_handler_content(&ix, &mut v, "C10");
+            check_c03(&ix, &mut v);
         }
         "C20" => {
             check_c20(&ix, &mut v);
